@@ -208,7 +208,7 @@ pub fn record(output: &str) {
     let mut last_p: Option<Parameters> = None;
     for k in 0..n {
         let class = if k % 13 == 12 { robots::FK_ONLY_CLASSES[(k / 13) % 2] } else { robots::GEOMETRY_CLASSES[k % robots::GEOMETRY_CLASSES.len()] };
-        let p = if k % 11 == 10 { robots::named_robots()[k % 6].1 } else { robots::geometry(class, &mut r) };
+        let p = if k % 11 == 10 { robots::named_robots()[(k / 11) % 11].1 } else { robots::geometry(class, &mut r) };
         let oc = ["zero", "quarter", "random"][k % 3];
         let mut p = robots::convention(p, (k / 3) % 64, oc, &mut r);
         if k % 5 == 4 { p.dof = 5; }
